@@ -196,16 +196,16 @@ int main(int argc, char** argv) {
     struct Task { std::vector<int> bodies; int i0; };
     std::vector<Task> tasks;
     if (level == 1) {
-        int P = T ? 3 : 2;
-        for (int x = 0; x < NBODY; x++) for (int y = x; y < NBODY; y++) tasks.push_back({{x, y}, 0});
-        if (T) for (int x = 0; x < 6; x++) for (int y = x; y < 6; y++) for (int z = y; z < 6; z += 2) tasks.push_back({{x, y, z}, 0});
-        Pool pool(a.jobs, 600);
+        // i0 = preemption bound of the task. quick: all pairs, 2 preemptions. thorough adds: a body with itself, 3 preemptions; triples, 2 preemptions.
+        for (int x = 0; x < NBODY; x++) for (int y = x; y < NBODY; y++) tasks.push_back({{x, y}, 2});
+        if (T) { for (int x = 0; x < 6; x++) for (int y = x; y < 6; y++) for (int z = y; z < 6; z += 2) tasks.push_back({{x, y, z}, 2}); for (int x = 0; x < NBODY; x++) tasks.push_back({{x, x}, 3}); }
+        Pool pool(a.jobs, 0);   // the watchdog is armed per schedule below (a task explores thousands of schedules)
         pool.run(tasks.size(), [&](uint64_t ti, Result& R) {
-            const Task& t = tasks[ti]; int bound = t.bodies.size() == 3 ? 2 : P; uint64_t nsched = 0; std::set<std::string> seen_digest;
+            const Task& t = tasks[ti]; int bound = t.i0; uint64_t nsched = 0; std::set<std::string> seen_digest;
             std::function<void(const std::vector<int>&)> explore = [&](const std::vector<int>& prefix) {
                 if (a.expired()) { R.deadline_hit = true; return; }
                 set_note(prefix_str(t.bodies, prefix, 1));
-                RunOut x = controlled_run(t.bodies, prefix, 1); nsched++; R.count("traces"); R.count("transitions", x.points.size());
+                alarm(120); RunOut x = controlled_run(t.bodies, prefix, 1); alarm(0); nsched++; R.count("traces"); R.count("transitions", x.points.size());
                 check_run(t.bodies, prefix, 1, x, R);
                 int cost = 0; std::vector<int> choices; for (auto& p : x.points) choices.push_back(p.choice);
                 std::vector<int> costs(x.points.size() + 1, 0); for (size_t i = 0; i < x.points.size(); i++) costs[i + 1] = costs[i] + ((x.points[i].running_enabled && x.points[i].choice != 0) ? 1 : 0);
@@ -228,14 +228,14 @@ int main(int argc, char** argv) {
         std::vector<T2> t2;
         for (auto& pr : pairs) { RunOut x = controlled_run({pr.first, pr.second}, {0}, 2); size_t NA = 0; for (auto& p : x.points) if (p.tid == 0 && p.kind != 'F') NA++; size_t step = T ? 1 : 1; (void)step; size_t chunk = 400; for (size_t lo = 0; lo < NA; lo += chunk) t2.push_back({pr.first, pr.second, lo, std::min(NA, lo + chunk)}); }   // preempt A at its point #i+1, i in [0, NA)
         size_t stride = T ? 1 : 7;
-        Pool pool(a.jobs, 600);
+        Pool pool(a.jobs, 0);
         pool.run(t2.size(), [&](uint64_t ti, Result& R) {
             const T2& t = t2[ti];
             for (size_t i = t.lo; i < t.hi; i += stride) {
                 if (a.expired()) { R.deadline_hit = true; return; }
                 std::vector<int> prefix; prefix.push_back(0); prefix.insert(prefix.end(), i, 0); prefix.push_back(1);
                 set_note(prefix_str({t.a, t.b}, prefix, 2));
-                RunOut x = controlled_run({t.a, t.b}, prefix, 2); R.count("traces"); R.count("nontrivial"); R.count("transitions", x.points.size());
+                alarm(120); RunOut x = controlled_run({t.a, t.b}, prefix, 2); alarm(0); R.count("traces"); R.count("nontrivial"); R.count("transitions", x.points.size());
                 check_run({t.a, t.b}, prefix, 2, x, R);
             }
             R.count("states"); R.outcome(std::string(BN[t.a]) + ">" + BN[t.b]);
